@@ -823,6 +823,19 @@ def comments_by_index(doc: Doc, idxs):
     return [cs[i] for i in idxs if i < len(cs)]
 
 
+def mark_file_claim(doc: Doc, log):
+    """k_mode 4 on the root File's own claim_interleaving_comments(), the last primitive of
+    File.auto_claim_comments(): the hypothesis file_cover_b of C14_file_auto_claim_all_claimed / C14_idempotent_file
+    (what the children left unclaimed lies in the File's range) is evaluated there"""
+    if not log:
+        return
+    rec = log[-1]
+    rep = getattr(getattr(doc.file, 'raw_directives_with_comments', None), 'repeated', None)
+    if rec.get('op') == 'claimer' and rec.get('filter') is None and not rec.get('exc') and not rec.get('mode') \
+            and rep is not None and rec.get('r') == doc.nid(rep):
+        rec['mode'] = 4
+
+
 def apply_op(doc: Doc, op):
     """Runs one API call under the tap. Returns (exception name or None, extra) ; doc.log holds the primitives."""
     name, path, arg = op
@@ -904,6 +917,8 @@ def apply_op(doc: Doc, op):
                                     'ret': [], 'slot_after': [doc.tid(cc)], 'mode': 0})
             elif name in ('auto', 'auto2'):
                 tgt.auto_claim_comments()
+                if tgt is doc.file:
+                    mark_file_claim(doc, doc.log)
                 if name == 'auto2':
                     t1 = doc.table()
                     k0 = len(doc.log)
@@ -1165,6 +1180,8 @@ def run_document(ctx, prop: str, lines, crlf, final_nl, ops_seed, n_ops, witness
     with Tap(d_false):
         d_false.log = []
         d_false.file.auto_claim_comments()
+    mark_file_claim(d_false, d_false.log)
+    ctx.count('hyp_file_cover_steps', sum(1 for p in d_false.log if p.get('mode') == 4))
     hists = {False: [d_false.log], True: []}
     metas = {False: [[['auto', 'F', None]]], True: []}
     if d_false.table() != d_true.table():
@@ -1340,7 +1357,8 @@ def run_document(ctx, prop: str, lines, crlf, final_nl, ops_seed, n_ops, witness
         for p in prims:
             ctx.dist('prim=' + p['op'] + ('' if not p['exc'] else ':' + p['exc']))
             if p.get('mode'):
-                ctx.count({1: 'hyp_idempotence_steps', 2: 'hyp_restore_surrounding', 3: 'hyp_restore_interleaving'}[p['mode']])
+                ctx.count({1: 'hyp_idempotence_steps', 2: 'hyp_restore_surrounding', 3: 'hyp_restore_interleaving',
+                           4: 'hyp_file_cover_steps'}[p['mode']])
     kinds = sorted({('i' if l['ind'] else 'u') + l['t'][0] for l in lines})
     ctx.case({'n_lines': len(lines), 'n_comments': n_com, 'crlf': crlf, 'final_nl': final_nl, 'line_kinds': kinds},
              nontrivial=n_com > 0)
@@ -1501,7 +1519,8 @@ def run_all(ctx, prop: str, n_quick: int, n_thorough: int):
             else:
                 ctx.fail('corr', 'theorem-hypothesis',
                          'a hypothesis of the C14 theorems (Inv on the parsed state, op_ok before a call, auto_ok '
-                         'in a repeated auto-claim, adjacency before unclaim+claim, empty placeholders) does not '
+                         'in a repeated auto-claim, adjacency / position in the field\'s range before unclaim+claim, '
+                         'file_cover_b before the File\'s own claim, empty placeholders) does not '
                          'hold on a trace of the implementation', all_cases[i][1])
 
 
@@ -1528,7 +1547,9 @@ RULE = ('ledgers generated from a line grammar (directives with/without metadata
         '(line count, comment count, CRLF, final newline, kinds of lines)')
 ASSUME = ['every hypothesis of the C14 theorems is evaluated on every trace (CommentsRun.hyp_case): inv_b on the parsed '
           'state, op_ok (item list = table entry, items in store order behind the placeholder) before every call, '
-          'auto_ok in repeated auto-claims, adjacent_comment / refs_ok_b before unclaim+claim',
+          'auto_ok in repeated auto-claims, adjacent_comment / refs_ok_b before unclaim+claim, claimable_b (the un-claimed '
+          'comments lie in the field\'s range) before the claim that follows unclaim_interleaving_comments, file_cover_b '
+          '(what the children left unclaimed lies in the File\'s range) before the root File\'s own claim',
           'token texts are cut to 3 code points on the Coq side (the model reads emptiness and a comment\'s first character)',
           'the token store is the plain list of its tokens (C07); get_next/get_prev/iter/splice on it are list operations',
           'token ids are unique in a store (checked on every state by the correspondence)',
